@@ -7,6 +7,10 @@ from .modelgen import Pred
 
 
 
+class HarnessError(Exception):
+    """Raised on purpose by workload callbacks / deciders (user code failing inside an event)."""
+
+
 class NullLog:
     """What a deep copy of the log becomes: probes on copies record nothing."""
 
@@ -100,6 +104,28 @@ class RefuseCb:
             dev.restore_functionality()
 
 
+class RaiseCb:
+    """Workload callback: user code that fails once, on the k-th finished part (registered last)."""
+
+    def __init__(self, k):
+        self.k, self.n, self.fired = k, 0, False
+
+    def __call__(self, dev, part):
+        if instrument.PROBING:
+            return
+        self.n += 1
+        if self.n >= self.k and not self.fired:
+            # only from the machine's own FINISH_PROCESSING event: a part that finishes inline inside its sender's
+            # hand-over (effective cycle time 0) would abort the SENDER's event half-way, and what the library does
+            # then is not covered by any of the statements
+            bus = instrument.CUR
+            ev = bus.in_event if bus is not None else None
+            if ev is not None and instrument.action_name(ev.action) == '_finish_cycle' \
+                    and instrument.action_owner(ev.action) is dev:
+                self.fired = True
+                raise HarnessError('finish callback failed')
+
+
 class RestoredCb:
     def __init__(self, log, dev_id, idx):
         self.log, self.dev_id, self.idx = log, dev_id, idx
@@ -172,10 +198,6 @@ class FinishOffsetCb:
             dev.offset_next_cycle_time(self.offset)
             if not instrument.PROBING:
                 self.log.cb_offsets.append((self.log.now(), self.dev_id, self.offset, self.log.serial()))
-
-
-class HarnessError(Exception):
-    """Raised on purpose by workload callbacks / deciders (user code failing inside an event)."""
 
 
 class World:
@@ -518,6 +540,8 @@ def build(spec, bus=None, script=True, system=None, known=None):
                 d.add_restored_callback(RestoredCb(log, i, n))
             if it.get('refuse'):
                 d.add_shutdown_callback(RefuseCb(log, i, it['refuse']))
+            if it.get('raise_at'):
+                d.add_finish_processing_callback(RaiseCb(it['raise_at']))
         elif k == 'buffer':
             d = Buffer(name=nm, upstream=ups, minimum_delay=it.get('delay', 0), capacity=it.get('cap'),
                        value=it.get('value', 0))
